@@ -1666,3 +1666,74 @@ def run_fee_prices(tier, log, seed):
     else:
         res.update(status="pass")
     return res
+
+
+# ------------------------------------------------------------------------------------------------ C10 (value guard of CALL / EXTCALL)
+def run_value_guard(tier, log, seed):
+    """In `call` and `extcall` the block that sets CallNotAllowedInsideStatic is entered exactly under
+    `interpreter.is_static && !value.is_zero()` where `value` is the word popped for the call value (full 256-bit zero test)."""
+    text = mir.dump("interpreter", log)
+    funcs = mir.parse_functions(text)
+    idx = interpreter_field_index("is_static")
+    duo = smt.Duo(timeout_s=30)
+    failures, inconcl, samples = [], [], []
+    for fname in ("call", "extcall"):
+        cands = [f for n, fl in funcs.items() for f in fl if n in ("instructions::contract::" + fname, "contract::" + fname, fname)]
+        if len(cands) != 1:
+            inconcl.append(f"{fname}: MIR body not found uniquely")
+            continue
+        fn = cands[0]
+        tgt = [b.name for b in fn.blocks.values() if any("InstructionResult::CallNotAllowedInsideStatic" in s for s in b.stmts)]
+        term, why = "unk", "guard not recognised"
+        if len(tgt) == 1:
+            # predecessor chain: switch(has_transfer) <- switch(is_static)
+            p1 = [b for b in fn.blocks.values() if re.match(r"^switchInt\((?:copy|move) (_\d+)\) -> \[0: bb\d+, otherwise: %s\]$" % tgt[0], b.term or "")]
+            if len(p1) == 1:
+                c1 = re.match(r"^switchInt\((?:copy|move) (_\d+)\)", p1[0].term).group(1)
+                p0 = [b for b in fn.blocks.values() if re.match(r"^switchInt\((?:copy|move) (_\d+)\) -> \[0: bb\d+, otherwise: %s\]$" % p1[0].name, b.term or "")]
+                conds = [c1]
+                if len(p0) == 1:
+                    conds.append(re.match(r"^switchInt\((?:copy|move) (_\d+)\)", p0[0].term).group(1))
+                kinds = set()
+                for c in conds:
+                    ds = defs_of(fn, c)
+                    if len(ds) == 1 and re.match(r"^copy \(\(\*_1\)\.%d: bool\)$" % idx, ds[0]):
+                        kinds.add("static")
+                    elif len(ds) == 1 and re.match(r"^Not\(move (_\d+)\)$", ds[0]):
+                        z = defs_of(fn, re.match(r"^Not\(move (_\d+)\)$", ds[0]).group(1))
+                        if len(z) == 1 and re.match(r"^ruint::cmp::<impl Uint<256, 4>>::is_zero\(move (_\d+)\)", z[0]):
+                            r_ = defs_of(fn, re.match(r".*is_zero\(move (_\d+)\)", z[0]).group(1))
+                            if len(r_) == 1 and re.match(r"^&_\d+$", r_[0]):
+                                v_ = defs_of(fn, r_[0][1:])
+                                if len(v_) == 1 and re.match(r"^Stack::pop_unsafe\(", v_[0]):
+                                    kinds.add("nonzero")
+                if kinds == {"static", "nonzero"}:
+                    term, why = "(and static nonzero)", "is_static && !value.is_zero() on the popped value"
+        v, model, detail = duo.check(["(declare-const static Bool)", "(declare-const nonzero Bool)", "(declare-const unk Bool)"],
+                                     [f"(not (= {term} (and static nonzero)))"])
+        samples.append(f"{fname}: guard of CallNotAllowedInsideStatic is {why} -> {v}")
+        log(f"[e3] {samples[-1]}")
+        if v == "unsat":
+            continue
+        if v != "sat":
+            inconcl.append(f"{fname}: {detail}")
+            continue
+        st, out = native.call("debug", "static_value_call", fname, log=log)
+        desc = f"{fname}: the static-mode value guard is not `is_static && value != 0` over all 256 bits ({why})"
+        if st == "ok":
+            failures.append(dict(id=f"{fname}-value-guard", reproduced=("ACCEPTED" in out), description=desc + f" | native: {out[:300]}"))
+        else:
+            inconcl.append(f"{fname}: native scenario failed: {st} {out}")
+    q, tm = duo.queries, duo.time
+    duo.close()
+    res = dict(queries=q, solver_s=tm, engine="mir dataflow scan -> smtlib (z3 4.8.12 + cvc5 1.0)", bounds="; ".join(samples),
+               detail="guard structure: switch(is_static) -> switch(!is_zero(popped value)) -> CallNotAllowedInsideStatic")
+    if any(f.get("reproduced") for f in failures):
+        res.update(status="fail", failures=failures, reason=failures[0]["description"][:300])
+    elif inconcl:
+        res.update(status="inconclusive", reason="; ".join(inconcl)[:500])
+    elif failures:
+        res.update(status="fail", failures=failures, reason=failures[0]["description"][:300])
+    else:
+        res.update(status="pass")
+    return res
